@@ -259,7 +259,7 @@ func genProgram(r *hk.Rand) *program {
 			sh.CHeaders = withHeader(sh.CHeaders, "Content-Type", ct)
 		}
 	}
-	if sh.BodyKind != "multipart" && r.Chance(15) {
+	if r.Chance(15) {
 		for i, n := 0, r.Range(1, 3); i < n; i++ {
 			sh.Ordered = append(sh.Ordered, [2]string{hk.Pick(r, formKeys), hk.Pick(r, tokVals)})
 		}
@@ -387,7 +387,6 @@ func genUploadProgram(r *hk.Rand) *program {
 	sh := &p.Shape
 	sh.Method = hk.Pick(r, []string{"POST", "PUT", "PATCH"})
 	sh.BodyKind, sh.Body, sh.MPFiles = "multipart", "", nil
-	sh.Ordered = nil // ordered pairs in multipart bodies are not in the upload model
 	p.Reexec = nil
 	kinds := []string{"bytes", "path", "seekcloser", "reader", "customseek", "customplain", "buffer", "osfile"}
 	sh.Chunked = r.Chance(40)
